@@ -737,7 +737,14 @@ func (e *Engine) unop(fr *Frame, x *ssa.UnOp) Value {
 			e.progPanic("nil pointer dereference at " + posOf(e.prog, x.Pos()))
 		}
 		if e.hb.on {
-			e.hbMem('R', p.L, posOf(e.prog, x.Pos()))
+			if !e.hbInLibrary() && e.isLibraryStruct(p.L.typ) {
+				// user code copies a whole value of a library struct type - which only happens implicitly, when a
+				// method with a VALUE receiver is called through the pointer: the copy reads every field in the
+				// caller's goroutine
+				e.hbMemForce('R', p.L, posOf(e.prog, x.Pos())+" (implicit copy of the receiver)")
+			} else {
+				e.hbMem('R', p.L, posOf(e.prog, x.Pos()))
+			}
 		}
 		return e.load(p.L)
 	case token.NOT:
@@ -957,4 +964,23 @@ func (e *Engine) storeQuiet(l *Loc, v Value) {
 	e.onStore = nil
 	e.store(l, v)
 	e.onStore = save
+}
+
+// isLibraryStruct: a named struct type declared in the modules under test (not in a harness file)
+func (e *Engine) isLibraryStruct(t types.Type) bool {
+	n, ok := t.(*types.Named)
+	if !ok {
+		return false
+	}
+	if _, ok := n.Underlying().(*types.Struct); !ok {
+		return false
+	}
+	obj := n.Obj()
+	if obj == nil || obj.Pkg() == nil || !strings.HasPrefix(obj.Pkg().Path(), "github.com/akramarenkov/") {
+		return false
+	}
+	if obj.Pos().IsValid() && strings.Contains(e.prog.Fset.Position(obj.Pos()).Filename, "zz_verif_") {
+		return false
+	}
+	return true
 }
